@@ -16,9 +16,16 @@ import Plotink.Gen.clip_code
 import Plotink.Gen.clip_segment
 import Plotink.Gen.points_in_tolerance
 import Plotink.Gen.supersample
+import Plotink.Gen.xml_escape
+import Plotink.Gen.format_hms
+import Plotink.Gen.parseLengthWithUnits
+import Plotink.Gen.unitsToUserUnits
+import Plotink.Gen.userUnitToUnits
+import Plotink.Gen.vb_scale
 /-! `gen <function> <dps> <args…>`: run a *generated* definition with the concrete rounding instance
 (`Rounding.ieee`), or with `Rounding.exact` when `<dps>` is written `x<dps>`.
-Arguments: `parseVal` syntax, plus nested lists `[[f1/2,0],[1,2]]` (no blanks).
+Arguments: `parseVal` syntax, plus nested lists `[[f1/2,0],[1,2]]` (no blanks) and strings `s<code points>`
+(comma-separated decimal code points as `showVal` prints them; `s-` is the empty string; top level only).
 Functions with a `while` loop take their fuel as first argument and answer `FUELOUT` on exhaustion. -/
 namespace Plotink
 namespace Drv
@@ -45,6 +52,10 @@ def parseArg (s : String) : Py.Val :=
     match parseNested s.toList with
     | (v, []) => v
     | _ => .err
+  else if s.startsWith "s" then
+    match decodeStr (s.drop 1).toString with
+    | some t => .str t
+    | none => .err
   else parseVal s
 
 def showPyOut : Py.Out → String
@@ -65,6 +76,12 @@ def genHandle (toks : List String) : String :=
     let r : Py.Val := match f, a with
       | "clip_code", [x, y, x0, x1, y0, y1] => Gen.clip_code R p x y x0 x1 y0 y1
       | "points_in_tolerance", [pts, tol] => Gen.points_in_tolerance R p pts tol
+      | "xml_escape", [t] => Gen.xml_escape R p t
+      | "format_hms", [d, ms] => Gen.format_hms R p d ms
+      | "parseLengthWithUnits", [t] => Gen.parseLengthWithUnits R p t
+      | "unitsToUserUnits", [t, ref] => Gen.unitsToUserUnits R p t ref
+      | "userUnitToUnits", [d, u] => Gen.userUnitToUnits R p d u
+      | "vb_scale", [vb, par, w, h] => Gen.vb_scale R p vb par w h
       | "move_dist_lt", [a, b, c, d] => Gen.move_dist_lt R p a b c d
       | "move_dist_t3", [a, b, c, d, e] => Gen.move_dist_t3 R p a b c d e
       | "rate_t3", [a, b, c, d] => Gen.rate_t3 R p a b c d
